@@ -204,9 +204,12 @@ def main() -> None:
                     if ev["ctxExit"]["k"] == "normal":
                         cm.__exit__(None, None, None)
                     else:
+                        # an Exception ("exn") or a BaseException that is not an Exception ("base": what
+                        # KeyboardInterrupt / SystemExit / pytest.skip() raise) leaves the block
+                        exc = RuntimeError("raised inside the activate_context block") if ev["ctxExit"]["k"] == "exn" else BlockLeft("left the block")
                         try:
-                            raise RuntimeError("raised inside the activate_context block")
-                        except RuntimeError as e:
+                            raise exc
+                        except BaseException as e:  # noqa
                             if not cm.__exit__(type(e), e, e.__traceback__):
                                 raise
             elif "userImport" in ev:
@@ -221,7 +224,13 @@ def main() -> None:
     print(json.dumps({"trace": trace}))
 
 
+class BlockLeft(BaseException):
+    """stands for KeyboardInterrupt / SystemExit / pytest's Skipped: not an Exception subclass"""
+
+
 def exc_name(e: BaseException) -> str:
+    if not isinstance(e, Exception):
+        return "baseException"
     for cls, nm in (
         (ModuleNotFoundError, "moduleNotFound"),
         (ImportError, "importError"),
